@@ -236,8 +236,11 @@ func (in *Inst) frameCheck(con *Contract, rp retPoint, ri int) {
 			}
 		}
 	}
+	memAll := false
 	for _, mi := range con.Modifies {
 		switch mi.Kind {
+		case modMem:
+			memAll = true
 		case modGhost:
 			ghostMod["g:"+mi.Name] = true
 		case modBytes, modSpare:
@@ -254,7 +257,7 @@ func (in *Inst) frameCheck(con *Contract, rp retPoint, ri int) {
 	}
 	// Mem
 	memE, memR := entry.get("Mem"), rp.st.get("Mem")
-	if memE != memR {
+	if memE != memR && !memAll {
 		r := e.freshConst("fr.r", "Int")
 		j := e.freshConst("fr.j", "Int")
 		conds := []string{sApp("<", r, allocE), sApp("<", "0", r)}
